@@ -74,6 +74,8 @@ func c12Patches() []c12Patch {
 		{"reject-body-not-go", []string{chA + "\n@@\nvar x expression\n@@\n-f2(x\n+g2(x)\n"}},
 		// a '+' side whose elision has no counterpart on the '-' side
 		{"plus-only-elision", []string{"# DESCTOKEN-A first\n@@\nvar x expression\n@@\n-f1(x)\n+g1(x, ...)\n"}},
+		// every site of the described change is a name-only slot in which the replacement cannot stand: nothing changes
+		{"inadmissible-only", []string{"# DESCTOKEN-Q\n@@\n@@\n-F\n+pkg.F\n"}},
 		{"noop-swap", []string{chNoop}},
 		{"noop-swap+A", []string{chNoop + "\n" + chA}},
 		{"shrink", []string{chShrink}},
@@ -194,6 +196,8 @@ func c12Applies(change string, src string) bool {
 		return false // only used to decide which descriptions may be reported
 	}
 	switch {
+	case strings.Contains(change, "-F\n+pkg.F"):
+		return false // every site is a name-only slot: the change applies to no file
 	case strings.Contains(change, "-swap(a, b)"):
 		return strings.Contains(src, "swap(")
 	case strings.Contains(change, "-veryLongFunctionName(x)"):
@@ -584,6 +588,10 @@ func c12Run(env *core.Env, ci any) core.Outcome {
 				}
 				file, desc := strings.TrimPrefix(ln[:i], "$ROOT/t/"), ln[i+1:]
 				if !allowedDesc[file][desc] {
+					if c.PatchID == "inadmissible-only" {
+						o := bad("desc-although-every-site-was-inadmissible", "%s: the description %q is reported for %q although the change left every site of that file unchanged (the replacement cannot stand in a name-only slot)", mode, desc, file)
+						return &o
+					}
 					o := bad("desc-for-wrong-file", "%s: description %q reported for %q, to which no change with that description applied", mode, desc, file)
 					return &o
 				}
